@@ -54,6 +54,10 @@ def run(ck, ctx):
                       "`some other type` edge to the return answers the WRONGTYPE error and nothing else (Redis answers WRONGTYPE for every "
                       "typed command against a key of another type; an empty/zero/nil answer there hides the key). Re-lookups behind a "
                       "deciding type test of the same key, TYPE-style total matches and MGET (nil by Redis semantics) are the only exceptions")
+    ck.rule("R01.19", "an absent key answers with the empty value of the command's own reply kind: where a handler distinguishes `key absent` from "
+                      "`key holds the right type`, every reply constructor reachable on the absent edge (Integer / BulkString / Array / simple "
+                      "status) is also one the present edge can produce - LLEN of nothing is :0, LRANGE of nothing is the empty array, GET of "
+                      "nothing is the nil bulk - never a reply of another kind (errors aside)")
     ck.rule("R01.17", "a stored counter changes by checked addition only: where a handler combines an integer parsed from a stored value with a "
                       "client-supplied integer (INCR/DECR/INCRBY/DECRBY, HINCRBY) the sum is i64::checked_add / checked_sub and its None edge "
                       "answers an error - never a wrapping/saturating/plain `+` (Redis refuses an overflowing increment and leaves the value)")
@@ -79,6 +83,7 @@ def run(ck, ctx):
         _r0115(ck, prog, cfg)
         _r0116(ck, prog, cfg)
         _r0117(ck, prog, cfg, effects.executor_methods(prog))
+        _r0119(ck, prog, cfg, effects.executor_methods(prog))
         _r0118(ck, prog, cfg)
         meths = effects.executor_methods(prog)
         _r011(ck, prog, cfg, meths)
@@ -1313,3 +1318,49 @@ def _r0118(ck, prog, cfg):
                      "RedisSortedSet::%s removes a member from `members` and can return without removing it from the skiplist" % f.short,
                      f.where(t["ln"]), detail="skiplist removal follows unless nothing was removed")
     ck.floor("R01.18" + _tag(cfg), n, 3)
+
+
+# ------------------------------------------------------------------------------------------------
+def _reply_kinds(f, start):
+    out = set()
+    for r in _wt_verdict(f, start):
+        if r == "WT" or r.startswith("err:"):
+            continue
+        if r.startswith("call:"):
+            out.add("call:" + r[5:].split("@")[0])
+        else:
+            out.add(r.split("@")[0])
+    return out
+
+
+def _r0119(ck, prog, cfg, meths):
+    from .lib import edge_targets
+    n = 0
+    for m, f in _bodies(prog, meths):
+        if f.kind != "method":
+            continue
+        sws = _type_switches(f)
+        if not sws:
+            continue
+        b, si, kid = sws[0]
+        t = f.term(b)
+        present = set()
+        for v, tg in t["cases"]:
+            present |= _reply_kinds(f, tg)
+        absent = None
+        for sb in sorted(f.reachable_blocks()):
+            s2 = switch_info(f, sb)
+            if s2 and s2["kind"] == "discr" and str(s2.get("ty", "")).startswith("std::option::Option<") and "value::Value" in s2["ty"]:
+                st_ = edge_targets(f, sb, 1)
+                if st_ == b or b in f.succ(st_):
+                    absent = _reply_kinds(f, edge_targets(f, sb, 0))
+                    break
+        if absent is None or "?" in absent or "?" in present or not present:
+            continue
+        n += 1
+        extra = sorted(absent - present)
+        ck.check(not extra, "R01.19", "%s:absent-key-reply-kind%s" % (f.short, _tag(cfg)),
+                 "for an absent key %s can answer with %s, a kind of reply it never gives for a present key of the right type (%s): Redis answers "
+                 "the empty/zero/nil value of the command's own reply type" % (f.short, extra, sorted(present)), f.where(t["ln"]),
+                 detail="absent-edge reply kinds %s within present-edge kinds %s" % (sorted(absent), sorted(present)))
+    ck.floor("R01.19" + _tag(cfg), n, 35)
